@@ -32,7 +32,20 @@ def handle : List String → String
           s!"{toHex s.coinId}:{toHex c.ph}:{c.amount}:" ++ (match c.hint with | some h => toHex h | none => "-"))))
         let rems := ",".intercalate vrem
         let adds := ",".intercalate vadd
-        s!"rem=[{rems}] add=[{adds}] || rebuild=same lookup=found || vrem=[{rems}] vadd=[{adds}]"
+        -- the scanner models (mirroring additions_and_removals / get_puzzle_and_solution_for_coin) must
+        -- themselves give the prescribed answer; a deviation shows up as `scanner=differs`
+        let scanOk := match additionsAndRemovals p g genRun puzF with
+          | none => false
+          | some (a, r) =>
+            let r' := r.map (fun (id, pb, ph, v) => s!"{toHex id}:{toHex pb}:{toHex ph}:{v}")
+            let a' := sortS (a.map (fun ((par, ph, v), h) => s!"{toHex par}:{toHex ph}:{v}:" ++ (match h with | some hb => toHex hb | none => "-")))
+            r' == vrem && a' == vadd
+        let lookupOk := match genRun with
+          | none => false
+          | some (_, out) => b.spends.all (fun s => match getPuzzleAndSolution out s.parentId s.puzzleHash s.coinAmount with
+              | some (pz, _) => Sexp.treeHash pz == s.puzzleHash
+              | none => false)
+        s!"rem=[{rems}] add=[{adds}] || rebuild=same lookup=found || vrem=[{rems}] vadd=[{adds}] || scanner={if scanOk && lookupOk then "agrees" else "differs"}"
   | _ => "bad-op"
 
 end ChiaModel.Drv.C09
